@@ -1,4 +1,5 @@
 # sourced by every command in /verif: offline Go settings
 export GOFLAGS=-mod=mod GOPROXY=off GOSUMDB=off GOTOOLCHAIN=local
 export CGO_ENABLED=${CGO_ENABLED:-0}
-export VERIF_ROOT=${VERIF_ROOT:-/verif}
+# evidence/, replays/ and known_findings.json live next to this file (a snapshot run stays inside its snapshot)
+export VERIF_ROOT=${VERIF_ROOT:-$(cd "$(dirname "${BASH_SOURCE[0]}")" && pwd)}
